@@ -8,13 +8,13 @@
 (* A recorded time is the digit sequence <<hi, lo, ns>>: seconds relative  *)
 (* to the reference second = hi * 2^16 + lo (0 <= lo < 2^16), nanosecond   *)
 (* within the second -- an exact, order-preserving image of the 64-bit     *)
-(* value in 32-bit integers.  The window of the statement is               *)
-(* -2^15 <= hi < 2^15.                                                     *)
+(* value in 32-bit integers.                                               *)
 (*   monitor (NtpTimeTrace_mon.cfg): the property section of NtpTime       *)
 (*   strict  (NtpTimeTrace_strict.cfg): the real results equal the         *)
 (*           transcription at the real constants (evaluated by the driver's*)
-(*           parametric evaluator); _strictfwd.cfg: the same for the old   *)
-(*           forward-only era unfolding (only used to word a DRIFT line)   *)
+(*           parametric evaluator); _strictws.cfg / _strictfwd.cfg: the    *)
+(*           same for the whole-second / forward-only era unfolding (only  *)
+(*           used to word a DRIFT line)                                    *)
 (*   eval    (NtpTimeTrace_eval.cfg): that evaluator equals NtpTime's      *)
 (*           operators on the complete table at the scaled constants       *)
 (***************************************************************************)
@@ -25,11 +25,11 @@ VARIABLE l
 \* property operators at the real nanosecond radix (the other constants are not
 \* used by them and cannot be represented in 32 bits)
 P == INSTANCE NtpTime WITH NsPerSec <- 1000000000, FracUnits <- 1, EraSecs <- 2, Epoch <- 0,
-       ForwardOnlyEraUnfold <- FALSE, RefSecs <- {}, RefNs <- {}, Offs <- {}, NsVals <- {},
+       ForwardOnlyEraUnfold <- FALSE, WholeSecondUnfold <- FALSE, RefSecs <- {}, RefNs <- {}, Offs <- {}, NsVals <- {},
        t0 <- <<0, 0>>, t <- << >>
 \* the transcription at the constants of NtpTimeMC
 S == INSTANCE NtpTime WITH NsPerSec <- 1000, FracUnits <- 4096, EraSecs <- 64, Epoch <- -33,
-       ForwardOnlyEraUnfold <- FALSE, RefSecs <- {}, RefNs <- {}, Offs <- {}, NsVals <- {},
+       ForwardOnlyEraUnfold <- FALSE, WholeSecondUnfold <- FALSE, RefSecs <- {}, RefNs <- {}, Offs <- {}, NsVals <- {},
        t0 <- <<0, 0>>, t <- << >>
 
 Trace == ndJsonDeserialize("trace.ndjson")
@@ -45,12 +45,9 @@ IsAgg == l > 0 /\ R.k = "agg"
 IsEv  == l > 0 /\ R.k = "eval"
 
 HI == 32768      \* 2^31 s in units of 2^16 s
-\* NtpTime!Judged for <<hi, lo, ns>> times relative to the reference second:
-\* inside the window for the reference as given (sub-second part rn) and for the
-\* reference truncated to its second
-JudgedT(x, rn) ==
-  /\ P!Between(x, <<-HI, 0, rn>>, <<HI, 0, rn>>)
-  /\ P!Between(x, <<-HI, 0, 0>>, <<HI, 0, 0>>)
+\* NtpTime!Judged for <<hi, lo, ns>> times relative to the reference second: the
+\* window -2^31 s <= t - t0 < 2^31 s for the reference as given (sub-second part rn)
+JudgedT(x, rn) == P!Between(x, <<-HI, 0, rn>>, <<HI, 0, rn>>)
 
 \* ------------------------------------------------------------- monitor
 \* clause 1: back within one nanosecond of t (d = back - t in ns, clamped to +-10^9)
@@ -59,12 +56,15 @@ RWithin1ns  == (IsRT /\ JudgedT(R.t, R.rn)) => P!Within1ns(R.d)
 RNeverLater == (IsRT /\ JudgedT(R.t, R.rn)) => P!NeverLater(R.t, R.b)
 \* clause 3: order preserved (pt is the preceding time of the same reference)
 ROrder      == (IsRT /\ JudgedT(R.t, R.rn) /\ JudgedT(R.pt, R.rn)) => P!OrderKept(R.pt, R.t, R.pb, R.b)
-\* dense sweep blocks (all sub-second values of one second): extreme differences
-\* and the number of adjacent pairs whose order was not preserved
-RAgg        == (IsAgg /\ JudgedT(<<R.sec[1], R.sec[2], 0>>, R.rn) /\ JudgedT(<<R.sec[1], R.sec[2], 999999999>>, R.rn)) =>
+\* dense sweep blocks (consecutive sub-second values n0 .. n1-1 of one second; the
+\* window is convex, so a block is judged when its two ends are): extreme differences
+\* and the number of adjacent pairs whose order was not preserved; pinv = 1 iff the
+\* nanosecond before the block (pt) came back later than the block's first value
+RAgg        == (IsAgg /\ JudgedT(<<R.sec[1], R.sec[2], R.n0>>, R.rn) /\ JudgedT(<<R.sec[1], R.sec[2], R.n1 - 1>>, R.rn)) =>
                  /\ P!Within1ns(R.mind) /\ P!Within1ns(R.maxd)
                  /\ R.maxd <= 0
                  /\ R.inversions = 0
+                 /\ (JudgedT(R.pt, R.rn) => R.pinv = 0)
 \* the clamped difference agrees with the digit images (guards the abstraction step;
 \* a failure is a harness fault, not a verdict)
 RConsistent == IsRT => /\ (R.d = 0 <=> R.b = R.t)
@@ -73,10 +73,12 @@ RConsistent == IsRT => /\ (R.d = 0 <=> R.b = R.t)
 
 \* -------------------------------------------------------------- strict
 SEncode          == IsRT => (R.ds32 = 0 /\ R.dfrac = 0)
-SDecodeFaithful  == IsRT => R.b = R.bf
-SDecodeRepaired  == IsRT => R.b = R.br
-SAggFaithful     == IsAgg => (R.misenc = 0 /\ R.misf = 0)
+SDecodeRepaired  == IsRT => R.b = R.br      \* the specification's default
+SDecodeWholeSec  == IsRT => R.b = R.bw      \* WholeSecondUnfold = TRUE
+SDecodeFaithful  == IsRT => R.b = R.bf      \* ForwardOnlyEraUnfold = TRUE
 SAggRepaired     == IsAgg => (R.misenc = 0 /\ R.misr = 0)
+SAggWholeSec     == IsAgg => (R.misenc = 0 /\ R.misw = 0)
+SAggFaithful     == IsAgg => (R.misenc = 0 /\ R.misf = 0)
 
 \* ---------------------------------------------------------------- eval
 EvalIsSpec == IsEv =>
@@ -84,6 +86,7 @@ EvalIsSpec == IsEv =>
       rr == <<R.r, R.rn>>
       x  == S!Encode(tt)
   IN /\ R.s32 = x.seconds /\ R.frac = x.fraction /\ R.nsec = S!Nsec(x.fraction)
-     /\ R.bf = S!DecodeWith(x, rr, TRUE)[1] - R.r
-     /\ R.br = S!DecodeWith(x, rr, FALSE)[1] - R.r
+     /\ R.bf = S!DecodeWith(x, rr, TRUE, TRUE)[1] - R.r
+     /\ R.bw = S!DecodeWith(x, rr, FALSE, TRUE)[1] - R.r
+     /\ R.br = S!DecodeWith(x, rr, FALSE, FALSE)[1] - R.r
 =============================================================================
